@@ -158,3 +158,17 @@ Example ex_foreign_share :
     [ ({| w_shnum := 4; w_server := 6 |}, answer_of 7 true [(4, 7)] [4]);
       ({| w_shnum := 0; w_server := 5 |}, answer_of 7 true [(0, 3)] [0]) ] = Success.
 Proof. vm_compute. split; reflexivity. Qed.
+
+From Verif Require Import Gen.MutPins.
+From Coq Require Import String.
+(* Fingerprints (AST, comments and docstrings excluded) of the source functions this model
+   transcribes by hand, regenerated from /repo on every run (harness/translate/mutpins.py):
+   the model was written for exactly these versions of them. *)
+Theorem model_pins_current :
+  pins_C12 =
+  [("server_slot_testv_and_readv_and_writev", "48b5cd274c5180db")%string;
+   ("server_evaluate_test_vectors", "b3a48c6d748eef5b")%string;
+   ("server_evaluate_read_vectors", "3e8dc683afcc580e")%string;
+   ("publish_got_write_answer", "166be3157ed17053")%string].
+Proof. reflexivity. Qed.
+Print Assumptions model_pins_current.
